@@ -138,12 +138,14 @@ class C12(Engine):
     rule = ("run i = history of 3-8 operations on one persistent SimFs workspace (set valid source from the 45-CPU corpus with "
             "labels/.db/macros/.if/.include; single-point corruption of %d kinds x %d placements; plant stale output; assemble with "
             "type/flags/-o drawn per op under faults: include vanishing before pass 2, fopen(list/out) failure, ENOSPC after k output "
-            "bytes (k swept), FD limit, source truncated at byte k).  The first %d run indices enumerate every (corruption kind x placement) "
-            "cell.  After every naken_asm lifetime the contract A1-A6 (status in {0,1}; status 0 <=> no 'Error' line and output file "
+            "or listing bytes (k swept), FD limit, source truncated at byte k, source not seekable (a pipe)).  The first %d run indices "
+            "enumerate every (corruption kind x placement) cell and then every corpus instruction with a literal and every mnemonic of "
+            "every CPU table with boundary / extreme literals (three per run) and an immediate marker without a value.  After every naken_asm lifetime the contract A1-A6 (status in {0,1}; status 0 <=> no 'Error' line and output file "
             "identical to a pristine fault-free reference run; status != 0 => diagnostic and no file at -o, stale ones included; reached "
             "erroneous statement => status != 0; failed output write => status != 0) is checked.  Distinct = distinct seam-event hash; "
             "non-trivial = a fault fired or the workspace carried state from an earlier operation into the assembly." % (
                 len(KINDS), len(PLACES), len(DIRECTED)))
+
     assumptions = ["read errors on the source itself are not injected ('every readable source file')",
                    "abnormal termination (signal/sanitizer) inside a C12 history is C16's finding and is only counted here",
                    "after an injected fopen(out) failure the program is not required to remove what it could not open"]
